@@ -455,7 +455,7 @@ def main():
                         byfp[f["fingerprint"]] = f
                 for fp, f in sorted(byfp.items()):
                     n = sum(1 for x in fails if x["fingerprint"] == fp)
-                    rp = write_replay(pid, re.sub(r"[^A-Za-z0-9_.-]", "_", fp),
+                    rp = write_replay(pid, re.sub(r"[^A-Za-z0-9_.-]", "_", fp) + "@" + hname + (f"-s{sd}" if sd != seed else ""),
                                       {"property": pid, "kind": "oracle-failure", "fingerprint": fp, "what": f["what"],
                                        "harness": hname, "seed": sd, "tier": tier, "case": f["case"], "ops": f["ops"],
                                        "impl_observations": f["obs"], "occurrences_this_run": n,
